@@ -42,7 +42,7 @@ def sourceHashes : List (String × String) :=
    ("getIndexArray", "e067901410b4a4f2"),
    ("getIndexMap", "0b8ebf5d3a7abe7c"),
    ("getIndexMap2", "60df9da4e7e6a59a"),
-   ("getFunc", "767f1bf470b0d0fd"),
+   ("getFunc", "b1cec79847c23ec5"),
    ("getIndexSeq", "c66a0fd6057b0616"),
    ("getPtrIndexSeq", "6be9b51311dc6a9e"),
    ("arrayLit", "0039cb31dfc777e6"),
